@@ -35,7 +35,7 @@ Proof. exact Setup.c18_unknown_scheme. Qed.
 Theorem c18_ldapi_starttls_rejected : forall (h : option (list byte)) (p : option N) (st : settings), starttls st = true -> plan_of repaired18 (s2b (String.String (Ascii.Ascii false false true true false true true false) (String.String (Ascii.Ascii false false true false false true true false) (String.String (Ascii.Ascii true false false false false true true false) (String.String (Ascii.Ascii false false false false true true true false) (String.String (Ascii.Ascii true false false true false true true false) String.EmptyString)))))) h p st = PErr EStartTlsUnix.
 Proof. exact Setup.c17_ldapi_starttls_rejected. Qed.
 
-Theorem c18_refuted_F27 : plan_of {| fix12 := true; fix13 := true; fix27 := false |} (s2b (String.String (Ascii.Ascii false false true true false true true false) (String.String (Ascii.Ascii false false true false false true true false) (String.String (Ascii.Ascii true false false false false true true false) (String.String (Ascii.Ascii false false false false true true true false) (String.String (Ascii.Ascii true false false true false true true false) String.EmptyString)))))) (Some (s2b (String.String (Ascii.Ascii true false true false false true false false) (String.String (Ascii.Ascii false true false false true true false false) (String.String (Ascii.Ascii false true true false false true true false) (String.String (Ascii.Ascii false false true false true true true false) (String.String (Ascii.Ascii true false true true false true true false) (String.String (Ascii.Ascii false false false false true true true false) (String.String (Ascii.Ascii true false true false false true false false) (String.String (Ascii.Ascii false true false false true true false false) (String.String (Ascii.Ascii false true true false false true true false) (String.String (Ascii.Ascii true true false false true true true false) (String.String (Ascii.Ascii true true true true false true true false) (String.String (Ascii.Ascii true true false false false true true false) (String.String (Ascii.Ascii true true false true false true true false) String.EmptyString))))))))))))))) None {| starttls := true; std_stream := None; has_timeout := false |} = PUnix (s2b (String.String (Ascii.Ascii true true true true false true false false) (String.String (Ascii.Ascii false false true false true true true false) (String.String (Ascii.Ascii true false true true false true true false) (String.String (Ascii.Ascii false false false false true true true false) (String.String (Ascii.Ascii true true true true false true false false) (String.String (Ascii.Ascii true true false false true true true false) (String.String (Ascii.Ascii true true true true false true true false) (String.String (Ascii.Ascii true true false false false true true false) (String.String (Ascii.Ascii true true false true false true true false) String.EmptyString)))))))))).
+Theorem c18_refuted_F27 : plan_of {| fix12 := true; fix13 := true; fix27 := false; fix57 := true |} (s2b (String.String (Ascii.Ascii false false true true false true true false) (String.String (Ascii.Ascii false false true false false true true false) (String.String (Ascii.Ascii true false false false false true true false) (String.String (Ascii.Ascii false false false false true true true false) (String.String (Ascii.Ascii true false false true false true true false) String.EmptyString)))))) (Some (s2b (String.String (Ascii.Ascii true false true false false true false false) (String.String (Ascii.Ascii false true false false true true false false) (String.String (Ascii.Ascii false true true false false true true false) (String.String (Ascii.Ascii false false true false true true true false) (String.String (Ascii.Ascii true false true true false true true false) (String.String (Ascii.Ascii false false false false true true true false) (String.String (Ascii.Ascii true false true false false true false false) (String.String (Ascii.Ascii false true false false true true false false) (String.String (Ascii.Ascii false true true false false true true false) (String.String (Ascii.Ascii true true false false true true true false) (String.String (Ascii.Ascii true true true true false true true false) (String.String (Ascii.Ascii true true false false false true true false) (String.String (Ascii.Ascii true true false true false true true false) String.EmptyString))))))))))))))) None {| starttls := true; std_stream := None; has_timeout := false |} = PUnix (s2b (String.String (Ascii.Ascii true true true true false true false false) (String.String (Ascii.Ascii false false true false true true true false) (String.String (Ascii.Ascii true false true true false true true false) (String.String (Ascii.Ascii false false false false true true true false) (String.String (Ascii.Ascii true true true true false true false false) (String.String (Ascii.Ascii true true false false true true true false) (String.String (Ascii.Ascii true true true true false true true false) (String.String (Ascii.Ascii true true false false false true true false) (String.String (Ascii.Ascii true true false true false true true false) String.EmptyString)))))))))).
 Proof. exact Setup.c17_refuted_F27. Qed.
 
 (* repair F43: the name matched against the server's certificate - the host of the URL, an IPv6 literal without its brackets; "localhost" when
@@ -52,6 +52,14 @@ Theorem c18_refuted_F43 : tls_name false (Some (s2b "[::1]"%string)) = s2b "[::1
   cert_names_match [s2b "localhost"%string] true (Some (s2b "[::1]"%string)) = false.
 Proof. exact Setup.c18_refuted_F43. Qed.
 
+(* repair F57 (found by a review of my own repair F12): a URL without "//" has no authority part and is no LDAP URL - an error, not localhost *)
+Theorem c18_no_authority : forall sch p st, beqs sch (s2b "ldap"%string) = true \/ (beqs sch (s2b "ldap"%string) = false /\ beqs sch (s2b "ldaps"%string) = true) ->
+  beqs sch (s2b "ldapi"%string) = false -> plan_of_auth repaired18 false sch None p st = PErr ENoAuthority.
+Proof. exact Setup.c18_no_authority. Qed.
+Theorem c18_refuted_F57 : plan_of_auth {| fix12 := true; fix13 := true; fix27 := true; fix57 := false |} false (s2b "ldap"%string) None None dflt = PTcp (s2b "localhost"%string) 389 Plain false /\
+  plan_of_auth repaired18 false (s2b "ldap"%string) None None dflt = PErr ENoAuthority /\ plan_of_auth repaired18 true (s2b "ldap"%string) None None dflt = PTcp (s2b "localhost"%string) 389 Plain false.
+Proof. exact Setup.c18_refuted_F57. Qed.
+
 Print Assumptions c18_total.
 Print Assumptions c18_ldap_default_port.
 Print Assumptions c18_ldaps_default_port.
@@ -67,3 +75,5 @@ Print Assumptions c18_tls_name_v6_literal.
 Print Assumptions c18_tls_name_plain.
 Print Assumptions c18_tls_name_default.
 Print Assumptions c18_refuted_F43.
+Print Assumptions c18_no_authority.
+Print Assumptions c18_refuted_F57.
